@@ -2072,8 +2072,13 @@ Proof.
           generalize (st_ih (ust s3)) k m Nk. clear.
           induction l as [|h r IH]; intros [|k] [|m] Nk; cbn; auto; [congruence|]. apply IH. congruence. }
       assert (CE4 : CE s4 (ih_owner (ih_of (ust s3) m))) by (rewrite C3o; apply C4; rewrite <- C3; reflexivity).
-      clearbody s4. eapply run_conseq; [apply std_process_input; assumption|].
-      intros o s' P. eapply std_post_l; [|exact P]. eapply Rel_trans_l; [apply Keep_rel, K1|exact R4].
+      clearbody s4.
+      (* the arguments of the answered request are put in place (fix of F15): nothing the invariant looks at *)
+      apply run_seq. apply run_wr. set (s5 := s4 <| ust := _ |>).
+      assert (K5 : Keep s4 s5) by (apply Keep_wr; reflexivity).
+      clearbody s5. eapply run_conseq; [apply std_process_input; [exact (Keep_inv _ _ _ K5 I4)|exact (CE_keep _ _ _ K5 CE4)]|].
+      intros o s' P. eapply std_post_l; [|exact P]. eapply Rel_trans_l; [apply Keep_rel, K1|].
+      eapply Rel_trans_r; [exact R4|apply Keep_rel, K5].
     + apply run_ret.
       destruct (Inv_ready1 s1 s3 m (sg_data sg)) as (I3 & R3 & _); try reflexivity; [|exact I1|].
       { intros k A H. rewrite E3 in H. split; [|exact H]. intros ->. destruct (ihs_nth _ _ _ _ H) as [_ X]. congruence. }
